@@ -257,7 +257,7 @@ func exitsOf(fn *ssa.Function) []fnExit {
 				out = append(out, fnExit{Block: b, Kind: exitSuccess, Ret: last})
 				continue
 			}
-			ev := last.Results[ei]
+			ev := unspill(last.Results[ei], b)
 			if phi, ok := ev.(*ssa.Phi); ok && phi.Block() == b {
 				for i, e := range phi.Edges {
 					k := exitUnknown
@@ -282,6 +282,32 @@ func exitsOf(fn *ssa.Function) []fnExit {
 	return out
 }
 
+// unspill: in functions with defers go/ssa spills results into allocs (`*t1 = v;
+// rundefers; t2 = *t1; return t2`). Resolve such a load to the value stored last in b.
+func unspill(v ssa.Value, b *ssa.BasicBlock) ssa.Value {
+	u, ok := v.(*ssa.UnOp)
+	if !ok || u.Op != token.MUL || u.Block() != b {
+		return v
+	}
+	al, ok := u.X.(*ssa.Alloc)
+	if !ok {
+		return v
+	}
+	var last ssa.Value
+	for _, ins := range b.Instrs {
+		if ins == ssa.Instruction(u) {
+			break
+		}
+		if st, ok := ins.(*ssa.Store); ok && st.Addr == ssa.Value(al) {
+			last = st.Val
+		}
+	}
+	if last != nil {
+		return last
+	}
+	return v
+}
+
 // provablyNonNil: an error value that cannot be nil at block b.
 func provablyNonNil(v ssa.Value, b *ssa.BasicBlock) bool {
 	switch x := v.(type) {
@@ -290,6 +316,12 @@ func provablyNonNil(v ssa.Value, b *ssa.BasicBlock) bool {
 	case *ssa.Call:
 		switch calleeName(x) {
 		case "errors.New", "fmt.Errorf", "errors.Join":
+			return true
+		}
+		// error-preserving wrappers of the repository (frozenError(err), getFrozenError(..)):
+		// every return of the callee is a fresh non-nil error or one of its parameters,
+		// and the corresponding argument is non-nil here
+		if callee := x.Call.StaticCallee(); callee != nil && len(callee.Blocks) > 0 && wrapperNonNil(callee, x, b, 0) {
 			return true
 		}
 	case *ssa.Phi:
@@ -301,6 +333,70 @@ func provablyNonNil(v ssa.Value, b *ssa.BasicBlock) bool {
 		return len(x.Edges) > 0
 	}
 	return knownNonNil(v, b)
+}
+
+func wrapperNonNil(callee *ssa.Function, call *ssa.Call, b *ssa.BasicBlock, depth int) bool {
+	if depth > 3 {
+		return false
+	}
+	ei := -1
+	res := callee.Signature.Results()
+	for i := 0; i < res.Len(); i++ {
+		if res.At(i).Type().String() == "error" {
+			ei = i
+		}
+	}
+	if ei < 0 {
+		return false
+	}
+	nret := 0
+	for _, blk := range callee.Blocks {
+		if len(blk.Instrs) == 0 {
+			continue
+		}
+		ret, ok := blk.Instrs[len(blk.Instrs)-1].(*ssa.Return)
+		if !ok || len(ret.Results) <= ei {
+			continue
+		}
+		nret++
+		var leaves []ssa.Value
+		var walk func(v ssa.Value, d int)
+		walk = func(v ssa.Value, d int) {
+			if ph, ok := v.(*ssa.Phi); ok && d < 4 {
+				for _, e := range ph.Edges {
+					walk(e, d+1)
+				}
+				return
+			}
+			leaves = append(leaves, v)
+		}
+		walk(ret.Results[ei], 0)
+		for _, lv := range leaves {
+			if prm, ok := lv.(*ssa.Parameter); ok {
+				idx := -1
+				for i, q := range callee.Params {
+					if q == prm {
+						idx = i
+					}
+				}
+				if idx < 0 || idx >= len(call.Call.Args) || !provablyNonNil(call.Call.Args[idx], b) {
+					return false
+				}
+				continue
+			}
+			if c2, ok := lv.(*ssa.Call); ok {
+				switch calleeName(c2) {
+				case "errors.New", "fmt.Errorf", "errors.Join":
+					continue
+				}
+			}
+			if _, ok := lv.(*ssa.MakeInterface); ok {
+				continue
+			}
+			return false
+		}
+	}
+	return nret > 0
 }
 
 // knownNilOnEdge: v known nil when control flows from p to s (p ends in If on v).
